@@ -29,5 +29,13 @@ REGISTRY["C20"] = dict(
          "path for the stated ranges/lengths (negated round trip unsat per path, no-overflow and unwinding obligations discharged).",
     note=_BOUNDED)
 
+REGISTRY["C02"] = dict(
+    modules=["harness.c02_crash"],
+    technique="CrossHair symbolic execution of real commit/cancel with a symbolic crash point over instrumented storage; z3 enumerates the feasible crash points",
+    text="The crash point (index of the storage operation replaced by process death) and the surviving prefix of open files are symbolic; "
+         "CrossHair executes the real writer/TOC/codec/storage code once per feasible point and must confirm over all paths that the "
+         "re-opened index is exactly old or new, is writable, and that the next commit leaves no orphaned segment files.",
+    note=_BOUNDED + "  OS model: rename atomic, process death closes descriptors, no write re-ordering.")
+
 _PENDING = "check not built yet in this round (work in progress; see DESIGN.md section 4)"
 NOT_APPLICABLE = {("C%02d" % i): _PENDING for i in range(1, 21) if ("C%02d" % i) not in REGISTRY}
